@@ -50,6 +50,18 @@ type certSpec struct {
 	pURI, xURI []string
 	pIP, xIP   []*net.IPNet
 	crit       bool   // carries an unknown critical extension
+	// extensions written by hand (ExtraExtensions), critext.go: what the verifier cannot evaluate must stop chain building when critical
+	ext       []extSpec // further extensions, each with the verdict the property gives it
+	ncP, ncX  []gnForm  // GeneralName forms in the permitted / excluded subtrees that the verifier does not evaluate
+	ncHand    bool      // the nameConstraints extension is written by hand (always when ncP/ncX/ncSuffix/ncRaw are set)
+	ncFirst   bool      // hand-written subtrees: the forms of ncP/ncX precede the evaluated forms
+	ncCrit    int       // criticality of nameConstraints: 0 = critical (what the templates always asked for), 2 = not critical
+	ncSuffix  []byte    // hand-written: minimum/maximum fields appended to every GeneralSubtree (outside the model: topo.unjudged)
+	ncRaw     []byte    // hand-written: the complete extension value (malformed or unusual values)
+	ncInvalid bool      // ncRaw is not a NameConstraints value at all: when critical the certificate must never be part of a chain
+	sanOpaque []gnForm  // GeneralName forms in subjectAltName that the verifier does not evaluate (hand-written SAN)
+	sanFirst  bool      // they precede the evaluated names
+	sanCrit   int       // hand-written SAN: 1 = critical, otherwise not
 	skid       []byte // explicit subjectKeyIdentifier (nil: the library derives one for CAs); key ids are hints and never part of the ground truth
 	roots      bool   // member of the trusted pool
 	inter      bool   // member of the intermediates pool
@@ -69,6 +81,13 @@ type topo struct {
 	notes  []string
 
 	ekuVaried bool // extended key usages differ between certificates: ask with several requested usages
+	// critext.go
+	unjudged     string      // non-empty: the topology uses a feature outside the model (why); only the differentials judge
+	noTwin       bool        // crypto/x509 of other toolchains may evaluate an extension smx509 leaves unhandled: no comparison with the twin
+	buildMayFail bool        // a certificate carries a value ParseCertificate may refuse (refusal is an acceptable answer)
+	times        []time.Time // further verification times for every target
+	noHost       bool        // no queries with DNSName (names that are no host names)
+	digestKey    string      // key prefix of the verdict digest (default "topo")
 	ekuRecipe bool // ... because the recipe is about them
 
 	// Pool contents of the query being judged when they are not the roots/inter flags of
@@ -411,9 +430,8 @@ var mutators = []mutator{
 		t.ekuVaried, t.ekuRecipe = true, true
 	}},
 	{"critical-extension", func(t *topo, r *mon.Rand) {
-		s := t.certs[t.chain[r.Intn(len(t.chain))]]
-		s.crit = true
-		t.notes = append(t.notes, s.name+" has an unknown critical extension")
+		// an unknown critical extension, or another thing the verifier cannot evaluate (critext.go)
+		unevaluableExt(t, r, t.certs[t.chain[r.Intn(len(t.chain))]])
 	}},
 	{"leaf-is-anchor", func(t *topo, r *mon.Rand) {
 		t.leaf().roots = true
@@ -724,6 +742,30 @@ func constraintsAllow(ca, sub *certSpec, amb *bool) bool {
 		}
 		uriHosts = append(uriHosts, h)
 	}
+	// names that cannot be read as a domain name / mailbox at all (critext.go): under permitted subtrees of their form
+	// they cannot be shown to lie inside; otherwise (excluded subtrees only, constraints on other forms only) the
+	// model does not judge
+	bad := false
+	for _, d := range sub.dns {
+		if h := hopelessDomain(d); h != 0 {
+			if h == 2 && len(ca.pDNS) > 0 {
+				return false
+			}
+			bad = true
+		}
+	}
+	for _, m := range sub.emails {
+		if h := hopelessMailbox(m); h != 0 {
+			if h == 2 && len(ca.pMail) > 0 {
+				return false
+			}
+			bad = true
+		}
+	}
+	if bad {
+		*amb = true
+		return true
+	}
 	return permits(sub.dns, ca.pDNS, ca.xDNS, domainMatch) &&
 		permits(sub.ips, ca.pIP, ca.xIP, ipMatch) &&
 		permits(sub.emails, ca.pMail, ca.xMail, func(n, c string) bool { return emailMatch(n, c, amb) }) &&
@@ -808,6 +850,9 @@ next:
 // first rule that is violated, or "".
 func (t *topo) pathValid(path []int, q *query, strict bool, amb *bool) string {
 	at, usages := q.at, q.usages
+	if t.unjudged != "" {
+		*amb = true
+	}
 	specs := make([]*certSpec, len(path))
 	for i, p := range path {
 		specs[i] = t.certs[p]
@@ -823,8 +868,8 @@ func (t *topo) pathValid(path []int, q *query, strict bool, amb *bool) string {
 		if at.Before(s.nb) || at.After(s.na) {
 			return fmt.Sprintf("%s is outside its validity period at %s", s.name, at.Format(time.RFC3339))
 		}
-		if s.crit {
-			return fmt.Sprintf("%s carries an unknown critical extension", s.name)
+		if why := s.unevaluable(); why != "" {
+			return fmt.Sprintf("%s carries %s", s.name, why)
 		}
 		if i > 0 && i < last && !t.isInter(path[i]) {
 			return fmt.Sprintf("%s is not in the pool given as Intermediates", s.name)
@@ -853,7 +898,7 @@ func (t *topo) pathValid(path []int, q *query, strict bool, amb *bool) string {
 				return fmt.Sprintf("%s allows %d intermediates, the chain has %d below it", s.name, s.maxPath, n)
 			}
 		}
-		if s.hasNC() {
+		if s.hasNC() || s.ncByHand() {
 			for j := 0; j < i; j++ {
 				if !strict && j > 0 && t.selfIssued(path[j]) {
 					continue
@@ -967,7 +1012,7 @@ func (t *topo) template(i int) *x509.Certificate {
 		PermittedEmailAddresses: s.pMail, ExcludedEmailAddresses: s.xMail,
 		PermittedURIDomains: s.pURI, ExcludedURIDomains: s.xURI,
 		PermittedIPRanges: s.pIP, ExcludedIPRanges: s.xIP,
-		PermittedDNSDomainsCritical: s.hasNC(),
+		PermittedDNSDomainsCritical: s.hasNC() && s.ncCrit != 2,
 		SubjectKeyId:                s.skid,
 	}
 	if s.ca && s.maxPath >= 0 {
@@ -979,6 +1024,7 @@ func (t *topo) template(i int) *x509.Certificate {
 	if s.crit {
 		tm.ExtraExtensions = []pkix.Extension{{Id: append(append(asn1.ObjectIdentifier{}, oidVerifArc...), 9, 9), Critical: true, Value: []byte{5, 0}}}
 	}
+	tm.ExtraExtensions = append(tm.ExtraExtensions, s.handWritten()...)
 	return tm
 }
 
@@ -1189,6 +1235,7 @@ func (t *topo) queries(r *mon.Rand) []query {
 			t0.Add(-1000 * day), t0.Add(1000 * day), s.na, s.nb.Add(-time.Second)}
 		p := r.Perm(len(cands))
 		times = append(times, cands[p[0]], cands[p[1]])
+		times = append(times, t.times...)
 		for _, at := range times {
 			qs = append(qs, query{target: i, at: at, usages: pickUsage()})
 		}
@@ -1211,7 +1258,7 @@ func (t *topo) queries(r *mon.Rand) []query {
 		if r.Intn(4) == 0 {
 			qs = append(qs, query{target: i, at: t0, usages: usageSets[r.Intn(2)], noInter: true, extra: r.Bool()})
 		}
-		if r.Intn(4) == 0 {
+		if !t.noHost && r.Intn(4) == 0 {
 			hc := hostCandidates(s, r)
 			for k := 0; k < 2; k++ {
 				qs = append(qs, query{target: i, at: t0, usages: usageSets[1], dnsName: hc[r.Intn(len(hc))], extra: k > 0})
@@ -1287,6 +1334,7 @@ func (t *topo) describe() string {
 		if s.crit {
 			b.WriteString(" critical-ext")
 		}
+		b.WriteString(s.describeHand())
 		if s.roots {
 			b.WriteString(" ROOTS")
 		}
@@ -1314,6 +1362,9 @@ func chains(x *mon.Ctx) {
 		runTopology(c, i)
 		c.End()
 	}
+	// second part: the systematic enumeration of hand-written extensions, unevaluable names and
+	// validity boundaries (critext.go), judged by the same machinery
+	extensionCases(x)
 }
 
 func recipeName(i int) string {
@@ -1326,8 +1377,13 @@ func recipeName(i int) string {
 
 func runTopology(c *mon.Case, i int) {
 	splitLibRand(c)
+	runTopo(c, genTopo(c.R, i), i)
+}
+
+// runTopo builds the three instances of a generated topology, asks its queries and
+// judges the answers (ground truth, metamorphic relation, twin differential).
+func runTopo(c *mon.Case, t *topo, i int) {
 	r := c.R
-	t := genTopo(r, i)
 	c.Detail("topology", t.describe())
 	c.Detail("notes", strings.Join(t.notes, "; "))
 
@@ -1366,12 +1422,36 @@ func runTopology(c *mon.Case, i int) {
 	c.Detail("mixed-instance key kinds", mixKinds)
 
 	var insts []*instance
+	refusedSM := false
 	for _, b := range []struct {
 		label string
 		keys  []key
 		std   bool
 	}{{"sm2", sm2Keys, false}, {"mixed", mixKeys, false}, {"ecdsa-twin", ecKeys, true}} {
 		in, err := t.build(c, b.label, b.keys, b.std, i%2 == 1)
+		if err != nil && t.buildMayFail {
+			// a hand-written extension value that the parser may refuse: refusal is an acceptable answer,
+			// but it must not depend on the key types
+			c.Event("instance_refused_at_creation_or_parsing/"+b.label, 1)
+			c.Detail("refused "+b.label, err.Error())
+			if b.std {
+				insts = append(insts, nil)
+				if !refusedSM {
+					c.Event("value_accepted_by_smx509_and_refused_by_crypto/x509(observed)", 1)
+				}
+				continue
+			}
+			if len(insts) > 0 && !refusedSM {
+				c.Fail("mismatch", "instance %s refuses (%v) what the instance with SM2 keys accepts", b.label, err)
+			}
+			refusedSM = true
+			insts = append(insts, nil)
+			continue
+		}
+		if err == nil && refusedSM && !b.std {
+			c.Fail("mismatch", "instance %s accepts what the instance with SM2 keys refuses", b.label)
+			return
+		}
 		if err != nil {
 			if b.std && i%2 == 1 {
 				c.Inconclusive("twin instance could not be created by crypto/x509: %v", err)
@@ -1383,6 +1463,13 @@ func runTopology(c *mon.Case, i int) {
 		}
 		insts = append(insts, in)
 		c.Event("certificates_created", len(in.der))
+	}
+	if refusedSM {
+		if insts[2] != nil {
+			c.Event("value_refused_by_smx509_and_accepted_by_crypto/x509(observed)", 1)
+		}
+		c.Class("%s/depth%d/certs%d/%s", t.recipe, t.depth, len(t.certs), "refused-at-parsing")
+		return
 	}
 	viaPEM := r.Bool()
 	// pool objects: built once per instance and used by every query of the topology (lazily
@@ -1420,7 +1507,7 @@ func runTopology(c *mon.Case, i int) {
 		if q.maxCmp != 0 {
 			c.Event("queries_with_MaxConstraintComparisions", 1)
 		}
-		amb := false
+		amb := t.unjudged != ""
 		paths := t.allPaths(q.target)
 		var validStrict [][]int
 		for _, p := range paths {
@@ -1491,6 +1578,10 @@ func runTopology(c *mon.Case, i int) {
 				idx = append(idx, p)
 			}
 			stdSet, stdOK := chainSet(t, idx), serr == nil
+			if t.noTwin {
+				c.Event("twin_verdicts_not_compared(extension that other toolchains evaluate)", 1)
+				continue
+			}
 			c.Event("stdlib_differential_comparisons", 1)
 			if stdOK != smOK || stdSet != smSet {
 				c.Fail("mismatch", "%s: smx509 on the SM2 instance gives ok=%v chains {%s}; crypto/x509 on the ECDSA twin gives ok=%v chains {%s} (err %v)", qd, smOK, smSet, stdOK, stdSet, serr)
@@ -1521,7 +1612,11 @@ func runTopology(c *mon.Case, i int) {
 	c.Class("%s/depth%d/certs%d/%s", t.recipe, t.depth, len(t.certs), outcome)
 	c.Event("queries", len(qs))
 	c.Event("queries_with_several_usages_and_several_candidate_chains", multiChainMultiUsage)
-	c.Digest(fmt.Sprintf("topo/%d", i), verdicts)
+	dk := t.digestKey
+	if dk == "" {
+		dk = "topo"
+	}
+	c.Digest(fmt.Sprintf("%s/%d", dk, i), verdicts)
 }
 
 // verifySM runs smx509 Verify on one instance and judges the result against the
@@ -1569,7 +1664,7 @@ func verifySM(c *mon.Case, t *topo, in *instance, leaf *smx509.Certificate, root
 			}
 			idx = append(idx, p)
 			// soundness: every link and every rule, against the ground truth
-			lamb := false
+			lamb := t.unjudged != ""
 			why := t.pathValid(p, q, false, &lamb)
 			if lamb {
 				*amb = true
